@@ -122,6 +122,10 @@ func Execute(c *Cell, p *Plan, tp *tape.Tape, keepLog bool) *Obs {
 			r.obs.Notes = append(r.obs.Notes, "no function field "+m.Name+"Func")
 			continue
 		}
+		if !f.CanSet() {
+			// the field of an unexported method: set it through its address
+			f = reflect.NewAt(f.Type(), unsafe.Pointer(f.UnsafeAddr())).Elem()
+		}
 		f.Set(reflect.MakeFunc(f.Type(), r.callback(m)))
 	}
 
@@ -169,6 +173,36 @@ func Execute(c *Cell, p *Plan, tp *tape.Tape, keepLog bool) *Obs {
 	r.obs.Complete = sim.Run()
 	r.obs.TapeOut = tp.Out
 	return r.obs
+}
+
+// methodValue returns a callable for a method of the mock: by reflection for
+// exported names, through the registered method expression otherwise.
+func (r *runner) methodValue(name string) reflect.Value {
+	if isExported(name) {
+		return r.mock.MethodByName(name)
+	}
+	fn, ok := r.c.Unexported[name]
+	if !ok {
+		return reflect.Value{}
+	}
+	fv := reflect.ValueOf(fn)
+	ft := fv.Type()
+	ins := make([]reflect.Type, 0, ft.NumIn()-1)
+	for i := 1; i < ft.NumIn(); i++ {
+		ins = append(ins, ft.In(i))
+	}
+	outs := make([]reflect.Type, 0, ft.NumOut())
+	for i := 0; i < ft.NumOut(); i++ {
+		outs = append(outs, ft.Out(i))
+	}
+	bound := reflect.FuncOf(ins, outs, ft.IsVariadic())
+	return reflect.MakeFunc(bound, func(args []reflect.Value) []reflect.Value {
+		all := append([]reflect.Value{r.mock}, args...)
+		if ft.IsVariadic() {
+			return fv.CallSlice(all)
+		}
+		return fv.Call(all)
+	})
 }
 
 func (r *runner) labelLocks() {
@@ -259,7 +293,7 @@ func (r *runner) runOp(ts *taskState, o *Op, depth int) {
 }
 
 func (r *runner) readCalls(rec *OpRec, method string) {
-	mv := r.mock.MethodByName(method + "Calls")
+	mv := r.methodValue(method + "Calls")
 	if !mv.IsValid() {
 		r.obs.Notes = append(r.obs.Notes, "no accessor "+method+"Calls")
 		return
@@ -333,7 +367,7 @@ func (r *runner) runCall(ts *taskState, o *Op, depth int) {
 		rec.ArgsDesc = append(rec.ArgsDesc, describe(args[i]))
 	}
 	rec.Tuple = strings.Join(rec.Args, "\x1f")
-	mv := r.mock.MethodByName(o.Method)
+	mv := r.methodValue(o.Method)
 	ts.stack = append(ts.stack, rec)
 	rec.InvSeq = r.sim.Point("invoke " + o.Method)
 	finished := false
